@@ -10,6 +10,90 @@ set_option linter.unusedSimpArgs false
 namespace ICal.Bodies
 open ICal ICal.PyRT ICal.Enc ICal.Gen.BodiesAdd
 
+/-! ### `Component._encode` -/
+
+theorem filter_absent (ps : Params) (k : Str) (h : ps.any (fun e => e.1 == k) = false) :
+    ps.filter (fun e => e.1 != k) = ps := by
+  induction ps with
+  | nil => rfl
+  | cons p ps ih =>
+    simp only [List.any_cons, Bool.or_eq_false_iff] at h
+    have hp : p.1 ≠ k := by intro e; simp [e] at h
+    simp [List.filter_cons, hp, ih h.2]
+
+/-- the loop over `parameters.items()`: None deletes the key (when present), a value sets it -/
+theorem encode_loop (upd : List (Str × Option PVal)) : ∀ (o : EncObj),
+    (Component_encode_loop1 (params_has := paramsHasE) (params_del := paramsDelE) (params_set := paramsSetE) o upd).map EncObj.val =
+      .ok { o.val with params := mergeParams o.val.params upd } := by
+  induction upd with
+  | nil => intro o; simp [Component_encode_loop1, mergeParams, pure, Except.pure, Except.map]
+  | cons kv upd ih =>
+    intro o
+    obtain ⟨k, item⟩ := kv
+    rw [Component_encode_loop1]
+    cases item with
+    | none =>
+      simp only []
+      by_cases hh : paramsHasE o k = true
+      · simp only [hh, if_true]
+        rw [ih]
+        simp [paramsDelE, EncObj.val, mergeParams]
+      · simp only [hh, if_false, Bool.false_eq_true]
+        rw [ih]
+        have hf : o.val.params.filter (fun e => e.1 != upper k) = o.val.params :=
+          filter_absent _ _ (by
+            unfold paramsHasE at hh
+            cases hb : o.val.params.any (fun e => e.1 == upper k)
+            · rfl
+            · exact absurd hb hh)
+        simp [mergeParams, hf]
+    | some v =>
+      simp only []
+      rw [ih]
+      simp [paramsSetE, EncObj.val, mergeParams]
+
+/-- the translated `_encode` is the model's `encodeOne` (a value of one of the value classes is not encoded again; the
+    class of the name makes the object otherwise; then the parameters are merged: None deletes) -/
+theorem encode_eq (name : Str) (v : PyVal) (upd : List (Str × Option PVal)) :
+    (encodeOneP name v upd).map EncObj.val = liftEnc (encodeOne name v upd) := by
+  have h1 : ((1 : Int) != 0) = true := by decide
+  have hl := encode_loop upd
+  unfold encodeOneP Component_encode encodeOne
+  simp only [Truthy.truthy, h1, Bool.not_true, Bool.false_eq_true, if_false]
+  cases hk : keptTyped v with
+  | some o =>
+    simp only [isTypedE, hk, Option.isSome_some, if_true, bind, Except.bind, pure, Except.pure]
+    cases upd with
+    | nil => simp [Except.map, EncObj.val, hk, mergeParams, liftEnc]
+    | cons kv r =>
+      simp only [List.isEmpty_cons, Bool.not_false, if_true]
+      have := hl (EncObj.raw v)
+      simp only [EncObj.val, hk, Option.getD_some] at this
+      cases hloop : Component_encode_loop1 (params_has := paramsHasE) (params_del := paramsDelE) (params_set := paramsSetE) (EncObj.raw v) (kv :: r) with
+      | error e => rw [hloop] at this; simp [Except.map] at this
+      | ok w => rw [hloop] at this; simp only [Except.map] at this; simp [Except.map, this, liftEnc]
+  | none =>
+    simp only [isTypedE, hk, Option.isSome_none, Bool.false_eq_true, if_false, constructE]
+    cases hc : construct1 (forProperty name) v with
+    | error e => cases e <;> rfl
+    | ok o =>
+      simp only [Except.map, liftEnc, bind, Except.bind, pure, Except.pure]
+      cases upd with
+      | nil => simp [Except.map, EncObj.val, mergeParams, liftEnc]
+      | cons kv r =>
+        simp only [List.isEmpty_cons, Bool.not_false, if_true]
+        have := hl (EncObj.obj o)
+        simp only [EncObj.val] at this
+        cases hloop : Component_encode_loop1 (params_has := paramsHasE) (params_del := paramsDelE) (params_set := paramsSetE) (EncObj.obj o) (kv :: r) with
+        | error e => rw [hloop] at this; simp [Except.map] at this
+        | ok w => rw [hloop] at this; simp only [Except.map] at this; simp [Except.map, liftEnc, this]
+
+theorem encodeU_one (upd : List (Str × Option PVal)) (name : Str) (v : PyVal) :
+    encodeU upd name (PyOneMany.one v) () 1 = liftEnc (encodeOne name v upd) := encode_eq name v upd
+
+theorem encodeU_many (upd : List (Str × Option PVal)) (name : Str) (xs : List PyVal) :
+    encodeU upd name (PyOneMany.many xs) () 1 = liftEnc (encodeWhole name (.list xs) upd) := rfl
+
 theorem mapM_encode (upd : List (Str × Option PVal)) (name : Str) : ∀ (xs : List PyVal),
     List.mapM (fun v => (encodeU upd name (PyOneMany.one v) () 1) >>= fun (t : Val) => (pure t : Py Val)) xs =
       liftEnc (Enc.mapRes (fun v => encodeOne name v upd) xs) := by
@@ -18,7 +102,7 @@ theorem mapM_encode (upd : List (Str × Option PVal)) (name : Str) : ∀ (xs : L
   | nil => rfl
   | cons x xs ih =>
     rw [List.mapM_cons, ih]
-    simp only [Enc.mapRes, encodeU]
+    simp only [Enc.mapRes, encodeU_one]
     cases hx : encodeOne name x upd with
     | error e => cases e <;> rfl
     | ok y =>
@@ -105,7 +189,7 @@ theorem add_split (props : List Entry) (name : Str) (a : PyArg) (upd : List (Str
   | list xs =>
     simp only [argU, isDatetimeU, Bool.false_and, Bool.false_eq_true, if_false]
     by_cases hl : Gen.addListNames.contains (lower name) = true
-    · simp only [hl, Bool.not_true, Bool.false_eq_true, if_false, if_true, encodeU]
+    · simp only [hl, Bool.not_true, Bool.false_eq_true, if_false, if_true, encodeU_one, encodeU_many]
       cases encodeWhole name (.list xs) upd with
       | error e => cases e <;> rfl
       | ok v => tail_cases props, name
@@ -121,11 +205,11 @@ theorem add_split (props : List Entry) (name : Str) (a : PyArg) (upd : List (Str
         | atom x => cases x <;> simp [isDatetimeU] at hd; exact ⟨_, rfl⟩
         | _ => simp [isDatetimeU] at hd
       by_cases hn : Gen.addUtcNames.contains (lower name) = true
-      · simp only [argU, isDatetimeU, hn, Bool.and_self, if_true, localizeUtcU, encodeU]
+      · simp only [argU, isDatetimeU, hn, Bool.and_self, if_true, localizeUtcU, encodeU_one, encodeU_many]
         cases encodeOne name (.atom (.dt t.toUtc)) upd with
         | error e => cases e <;> rfl
         | ok w => tail_cases props, name
-      · simp only [argU, isDatetimeU, hn, Bool.and_false, Bool.false_eq_true, if_false, encodeU]
+      · simp only [argU, isDatetimeU, hn, Bool.and_false, Bool.false_eq_true, if_false, encodeU_one, encodeU_many]
         cases encodeOne name (.atom (.dt t)) upd with
         | error e => cases e <;> rfl
         | ok w => tail_cases props, name
@@ -135,7 +219,7 @@ theorem add_split (props : List Entry) (name : Str) (a : PyArg) (upd : List (Str
         | atom x => cases x <;> simp [isDatetimeU] at hd ⊢
         | _ => rfl
       have hd' : isDatetimeU (PyOneMany.one v) = false := by simpa using hd
-      simp only [argU, hd', Bool.false_and, Bool.false_eq_true, if_false, encodeU]
+      simp only [argU, hd', Bool.false_and, Bool.false_eq_true, if_false, encodeU_one, encodeU_many]
       unfold forceUtc at hf
       rw [hf]
       simp only []
